@@ -525,11 +525,20 @@ def run(ctx):
                              {"kind": axis, "g1": s1, "g2": s1, "abs": a, "rel": r, "same_object": same}, nontrivial=False)
                     judge_geoms(ctx, axis, s1, s1, a, r, same_object=same)
 
+    # ---- is_in_clip, directed: a clip of zero duration (a marker) inside an event that extends to both sides of it
+    for typ in geoms.TYPES:
+        if typ in ("TimeStamp", "Point"):
+            continue
+        for cs in (0.5, 1.0, 5.0):
+            for m in (0, 0.25, 0.5, 2.0):
+                gs = geoms.geom_in_box(rng, typ, cs - 0.5, cs + 1.0, 1000.0, 5000.0)
+                ctx.case(("in_clip", typ, "zero_duration_clip_inside_event", "zero" if m == 0 else "pos"), {"kind": "in_clip", "g": gs, "clip": [cs, cs], "m": m})
+                judge_in_clip(ctx, gs, cs, cs, m)
     # ---- is_in_clip: dyadic grid of placements + random
     qs = [k / 4 for k in range(0, 25)]
     for typ in geoms.TYPES:
         for _ in range(ctx.scale(60, 400)):
-            cs = rng.choice(qs[:12] + [-0.5, -0.25, -2.0]); ce = cs + rng.choice(qs[1:12])
+            cs = rng.choice(qs[:12] + [-0.5, -0.25, -2.0]); ce = cs + rng.choice(qs[1:12] + [0.0, 0.0])     # (a clip of zero duration is a clip)
             where = rng.choice(["inside", "touch_start", "touch_end", "across_start", "across_end", "before", "after", "cover", "random"])
             L = ce - cs
             if where == "inside":
@@ -554,6 +563,8 @@ def run(ctx):
             if not b > a:
                 b = a + 0.25
             gs = geoms.geom_in_box(rng, typ, a, b, 1000.0, 5000.0)
+            if rng.random() < 0.06:
+                gs = {"type": "TimeInterval", "coordinates": [a, a]} if typ in geoms.TIME_ONLY else {"type": "BoundingBox", "coordinates": [a, 1000.0, a, 5000.0]}   # zero-duration event
             m = rng.choice([0, 0, 0.0, 0.25, 0.5, L / 2, L, 3.0, -0.25, -1e-9, rng.uniform(0, 1)])
             ctx.case(("in_clip", typ, where, "neg" if m < 0 else "zero" if m == 0 else "pos"),
                      {"kind": "in_clip", "g": gs, "clip": [cs, ce], "m": m})
